@@ -23,7 +23,7 @@ CFG = {
              "sendmsg/recvmsg SCM_RIGHTS, control buffer of size 0 / < / == / > CMSG_SPACE (by 1..64) ending at a guard page, "
              "pre-filled with zeroes/0xff/a stale message/noise, MsgHdrBorrow on the stack or boxed; oracle: control_messages() "
              "yields exactly what an independent cmsghdr walk over the raw control bytes finds, every descriptor fstat-identical to "
-             "the one sent, none lost without MSG_CTRUNC, a fault (child killed 3/3 times inside the iterator) is a violation. "
+             "the one sent, none lost without MSG_CTRUNC, never fewer delivered than min(sent, (buffer length - 16) / 4) - what the kernel hands over when it is offered the whole supplied buffer -, a fault (child killed 3/3 times inside the iterator) is a violation. "
              "Non-trivial = a transfer in which the tiny-std side really went through EAGAIN->ppoll->retry (from the E2 log), an "
              "injected EINTR that was served, a call that timed out, a traced try-call, an order case with at least one connection, "
              "an fd transfer with a control buffer other than the tests' zeroed 64 bytes; distinct by hash of the serialised case."),
